@@ -9,6 +9,7 @@ import (
 	"hash/crc32"
 	"os"
 	"os/exec"
+	"path/filepath"
 	"strings"
 	"sync"
 	"testing"
@@ -461,6 +462,9 @@ type procCase struct {
 	Goroutines int `json:"goroutines"`
 	Millis     int `json:"millis"`
 	Salt       int `json:"salt"`
+	// Trim: one goroutine per process also trims now and then (after removing the record of the last trim, so that the
+	// trim is due and really scans): nothing in the directory is older than the run, so nothing may be lost to it
+	Trim bool `json:"trim,omitempty"`
 }
 
 type workerReport struct {
@@ -493,6 +497,12 @@ func workerMain() {
 				id := int(x>>8) % nIDs
 				ver := int(x>>16) % 3
 				ops++
+				if pc.Trim && g == 0 && ops%40 == 7 {
+					os.Remove(filepath.Join(d, "trim.txt"))
+					if err := rc.Trim(); err != nil {
+						bad = vt.Failf("trim-failed", "Trim failed in a worker process: %v", err)
+					}
+				}
 				switch (x >> 24) % 3 {
 				case 0:
 					if err := rc.PutBytes(cache.ActionID(cachekit.ID(id)), payload(id, ver)); err != nil {
@@ -613,9 +623,13 @@ func TestProcesses(t *testing.T) {
 		if vt.Thorough() {
 			ms = rapid.IntRange(500, 2500).Draw(t, "millis")
 		}
-		return procCase{Procs: rapid.IntRange(2, 3).Draw(t, "procs"), Goroutines: rapid.IntRange(2, 4).Draw(t, "goroutines"), Millis: ms, Salt: rapid.IntRange(0, 1<<20).Draw(t, "salt")}
+		return procCase{Procs: rapid.IntRange(2, 3).Draw(t, "procs"), Goroutines: rapid.IntRange(2, 4).Draw(t, "goroutines"), Millis: ms, Salt: rapid.IntRange(0, 1<<20).Draw(t, "salt"), Trim: rapid.Bool().Draw(t, "trim")}
 	}, Check: checkProcs, Meta: func(c procCase) vt.Meta {
-		return vt.Meta{NonTrivial: true, Classes: []string{fmt.Sprintf("procs=%d", c.Procs)}}
+		cl := []string{fmt.Sprintf("procs=%d", c.Procs)}
+		if c.Trim {
+			cl = append(cl, "procs-with-trimming")
+		}
+		return vt.Meta{NonTrivial: true, Classes: cl}
 	}}, n)
 	rec.Class("procs:operations", procOps)
 	rec.Class("procs:lookups", procLookups)
